@@ -4,6 +4,7 @@
 //	production -mode replay -in behs.json -out <dir> -seed S      model -> implementation: every behaviour exported by
 //	      TLC (who packs on which parent after how many skipped slots with which tx kinds; which validations / restarts
 //	      the model node does) is concretised and executed
+//	production -mode directed -out <dir> -seed S      hand-made scenarios, one cache rule each
 //	production -mode random -profile poa|gal3|pos -runs N -blocks K -out <dir> -seed S      seeded long runs
 //
 // For every block the real packer produced (sim.Net.MintAt = packer.Schedule + flow.Adopt + flow.Pack on the omniscient
@@ -14,6 +15,7 @@
 //	sib    an instance that validates a sibling (another proposer, same parent) first
 //	conf   an instance that is given another conflicts ordinal
 //	twice  an instance that validates the block twice in a row
+//	alt0/1 instances that start from scratch at even / odd heights and are warm on the other ones
 //	w      (replay) the instance that follows the Validate / Restart steps of the behaviour
 //	n0     a full node stack with its own store importing every block (node.processBlock)
 //	n1     a full node stack that is restarted (Net.Restart) before it imports the block
@@ -238,7 +240,7 @@ func newRun(idx int, cfg Cfg, seed int64, res *results, shapes map[string]bool) 
 	r.blocks["b0"] = b0
 	r.order = append(r.order, "b0")
 	r.nextID = 1
-	for _, n := range []string{"w", "warm", "sib", "conf", "twice"} {
+	for _, n := range []string{"w", "warm", "sib", "conf", "twice", "alt0", "alt1"} {
 		r.inst[n] = consensus.New(g.Repo, g.Stater, r.net.FC)
 	}
 	bal := cfg.Bal
@@ -448,6 +450,27 @@ func (r *run) cord(b *blk) []int {
 		}
 	}
 	return out
+}
+
+// slotOwner: the active proposer that owns slot k after parent (0 if nobody is active).
+func (r *run) slotOwner(parent *blk, k int) int {
+	ids, act, _, _, _ := r.view(parent)
+	active := map[int]bool{}
+	for i, id := range ids {
+		if act[i] {
+			active[id] = true
+		}
+	}
+	var order []int
+	for _, id := range r.cord(parent) {
+		if active[id] {
+			order = append(order, id)
+		}
+	}
+	if len(order) == 0 {
+		return 0
+	}
+	return order[(k-1)%len(order)]
 }
 
 // ------------------------------------------------------------------------------------------------ transactions
@@ -802,6 +825,17 @@ func (r *run) battery(b *blk, sib *blk, full bool) {
 	r.process("warm", "warm", r.inst["warm"], b, b.conflicts)
 	r.restartInst("cold")
 	r.process("cold", "cold", r.inst["cold"], b, b.conflicts)
+	// alt<k> starts from scratch at every block whose height is k modulo 2 and is warm on the other heights: for every
+	// block there is a validator that read the state exactly there and relies on its cache for the child
+	for k := 0; k < 2; k++ {
+		n := fmt.Sprintf("alt%d", k)
+		if int(b.b.Header().Number())%2 == k {
+			r.restartInst(n)
+			r.process(n, "cold-then-warm", r.inst[n], b, b.conflicts)
+		} else {
+			r.process(n, "warm-after-cold", r.inst[n], b, b.conflicts)
+		}
+	}
 	if full {
 		r.process("conf", "other-conflicts", r.inst["conf"], b, b.conflicts+1+uint32(r.rng.Intn(3)))
 		r.process("twice", "repeated", r.inst["twice"], b, b.conflicts)
@@ -1002,11 +1036,54 @@ func (r *run) checkExp(name string, exp map[string]any, w *world) {
 	}
 }
 
+// directed: hand-made scenarios aimed at one cache rule each.  p = 0 is "the rightful owner of the slot" (no activity
+// updates when now = 1, so that the PoS leader group is cached at all); every scenario is a chain b1 <- b2 <- ...
+func directed() []Behaviour {
+	var out []Behaviour
+	chain := func(name string, cfg Cfg, steps ...Step) {
+		for i := range steps {
+			steps[i].A, steps[i].B, steps[i].Par = "pack", i+1, i
+			if steps[i].Now == 0 {
+				steps[i].Now = 1
+			}
+		}
+		out = append(out, Behaviour{Cfg: cfg, Steps: steps, Name: name})
+	}
+	pos := Cfg{N: 6, Auth: []int{1, 2, 3}, Bal: []int{2, 2, 2, 2, 2, 2}, Thr: 1, Mbp: 3, Hay: true, Queue: []int{1, 2, 3}, E: 5, Per: 5, Gal: "0"}
+	for m := 1; m <= 3; m++ {
+		for _, nb := range []int{0, 9} {
+			// beneficiary set, then changed in a block without activity updates, then the validator itself proposes
+			chain(fmt.Sprintf("pos-beneficiary-%d-%d", m, nb), pos,
+				Step{Txs: []Tx{{"sben", m, 10}}}, Step{}, Step{Txs: []Tx{{"sben", m, nb}}}, Step{P: m}, Step{}, Step{P: m, Now: 2})
+		}
+		// somebody goes offline, comes back; the cached group must follow
+		chain(fmt.Sprintf("pos-online-%d", m), pos, Step{}, Step{P: m, Now: 3}, Step{}, Step{Now: 2}, Step{}, Step{P: m})
+	}
+	posT := pos
+	posT.TP, posT.E, posT.Per = 2, 2, 2
+	chain("pos-transition-housekeeping", posT, Step{Txs: []Tx{{"mbp", 0, 4}}}, Step{}, Step{Txs: []Tx{{"sadd", 4, 0}}}, Step{Txs: []Tx{{"sinc", 1, 0}}},
+		Step{Txs: []Tx{{"sexit", 2, 0}}}, Step{}, Step{P: 4}, Step{}, Step{P: 1}, Step{})
+	poa := Cfg{N: 4, Auth: []int{1, 2, 3}, Bal: []int{2, 1, 1, 1}, Thr: 1, Mbp: 4, E: 3, Per: 3, Gal: "never"}
+	for _, gal := range []string{"never", "2"} {
+		poa.Gal = gal
+		chain("poa-add-then-new-proposer-"+gal, poa, Step{}, Step{Txs: []Tx{{"add", 4, 0}}}, Step{P: 4}, Step{}, Step{Txs: []Tx{{"revoke", 2, 0}}}, Step{}, Step{P: 4, Now: 2})
+		chain("poa-endorsor-drained-"+gal, poa, Step{}, Step{Txs: []Tx{{"out", 2, 0}}}, Step{}, Step{P: 3, Now: 2}, Step{Txs: []Tx{{"in", 2, 0}}}, Step{P: 2}, Step{})
+		chain("poa-endorsement-raised-"+gal, poa, Step{}, Step{Txs: []Tx{{"thr", 0, 2}}}, Step{P: 1}, Step{Now: 2}, Step{Txs: []Tx{{"thr", 0, 1}}}, Step{P: 3}, Step{})
+		chain("poa-max-proposers-"+gal, poa, Step{}, Step{Txs: []Tx{{"mbp", 0, 2}}}, Step{P: 1}, Step{P: 2, Now: 2}, Step{Txs: []Tx{{"mbp", 0, 3}}}, Step{P: 3}, Step{})
+		chain("poa-reverted-and-plain-"+gal, poa, Step{Txs: []Tx{{"reverted", 0, 0}, {"plain", 0, 0}}}, Step{Txs: []Tx{{"add", 1, 0}}}, Step{Txs: []Tx{{"out", 4, 0}}}, Step{P: 2, Now: 3}, Step{})
+	}
+	return out
+}
+
 func replay(in string, seed int64, res *results, shapes map[string]bool) [][]trace.Ev {
-	raw, err := os.ReadFile(in)
-	must(err)
 	var behs []Behaviour
-	must(json.Unmarshal(raw, &behs))
+	if in == "directed" {
+		behs = directed()
+	} else {
+		raw, err := os.ReadFile(in)
+		must(err)
+		must(json.Unmarshal(raw, &behs))
+	}
 	var all [][]trace.Ev
 	for i, bh := range behs {
 		r := newRun(i, bh.Cfg, seed*1000+int64(i), res, shapes)
@@ -1020,7 +1097,13 @@ func replay(in string, seed int64, res *results, shapes map[string]bool) [][]tra
 				}
 				name := fmt.Sprintf("b%d", r.nextID)
 				r.nextID++
-				b := r.pack(name, par, s.P, s.Now, s.Txs)
+				prop := s.P
+				if prop <= 0 { // directed scenarios: the rightful owner of the slot asked for
+					if prop = r.slotOwner(r.blocks[par], s.Now); prop == 0 {
+						continue
+					}
+				}
+				b := r.pack(name, par, prop, s.Now, s.Txs)
 				if b == nil {
 					continue
 				}
@@ -1086,6 +1169,12 @@ func random(profile string, runs, blocks int, seed int64, res *results, shapes m
 			if x := r.rng.Intn(10); x >= 7 {
 				now = 2 + (x-7)%2 + r.rng.Intn(2)
 			}
+			if r.rng.Intn(2) == 0 {
+				// the rightful owner of the slot asked for (no or few activity updates: the PoS cache is only kept then)
+				if o := r.slotOwner(parent, now); o > 0 {
+					p = o
+				}
+			}
 			name := fmt.Sprintf("b%d", r.nextID)
 			r.nextID++
 			b := r.pack(name, parent.name, p, now, r.randomTxs(parent.world, parent.b.Header().Number()+1, 2))
@@ -1127,6 +1216,8 @@ func main() {
 	switch *mode {
 	case "replay":
 		all = replay(*in, *seed, res, shapes)
+	case "directed":
+		all = replay("directed", *seed, res, shapes)
 	case "random":
 		all = random(*profile, *runs, *blocks, *seed, res, shapes)
 	default:
